@@ -143,7 +143,8 @@ class C10:
             ch = "e" if rng.random() < 0.3 else "o"  # stderr is redirected like stdout
             if rng.random() < 0.35:
                 return ["stdoutp", "P%d part " % st["n"], ch]  # no newline: stays pending in the proxy
-            return ["stdout", "P%d out %s" % (st["n"], rng.choice(["plain", "two words", "x"])), ch]
+            # (a quarter of these writes end in one or two blank lines: "text\n\n" in one write())
+            return ["stdout", "P%d out %s" % (st["n"], rng.choice(["plain", "two words", "x"])), ch, rng.choice([0, 0, 0, 1, 2])]
         if r < 0.44:
             return ["sleep", rng.choice([0.01, 0.05, 0.3, 1.1])]
         if r < 0.47:
@@ -677,13 +678,16 @@ class Program:
                 self.pending_out[ch] = ""
                 if ch == "e":
                     self.probes["stderr_lines"] = self.probes.get("stderr_lines", 0) + 1
-                rows = self._print_rows(lambda c: c.print(Text(line)))
+                extra = op[3] if len(op) > 3 else 0
+                if extra:
+                    self.probes["stdout_writes_ending_in_blank_lines"] = self.probes.get("stdout_writes_ending_in_blank_lines", 0) + 1
+                rows = self._print_rows(lambda c: c.print(Text(line + "\n" * extra)))
                 o.tokens.append(op[1].split(" ")[0])
                 self.probes["stdout_lines"] += 1
                 o.begin_op(op, [("print", rows)])
             else:
                 o.begin_op(op, [])
-            (sys.stderr if ch == "e" else sys.stdout).write(op[1] + "\n")
+            (sys.stderr if ch == "e" else sys.stdout).write(op[1] + "\n" + "\n" * (op[3] if len(op) > 3 else 0))
             o.end_op()
         elif k == "sleep":
             o.begin_op(op, [])
